@@ -90,6 +90,37 @@ func hasDeferLockPod(p *fg.Parsed, body *ast.BlockStmt) int {
 }
 
 // before: a >= 0 and (b < 0 or a < b)
+// skipsNonPodKeys: the (first) range loop of the body parses the record's key and `continue`s on an empty pod name
+// before it appends the record to the checklist.
+func skipsNonPodKeys(p *fg.Parsed, body *ast.BlockStmt) bool {
+	res := false
+	done := false
+	ast.Inspect(body, func(n ast.Node) bool {
+		fr, ok := n.(*ast.RangeStmt)
+		if !ok || done {
+			return !done
+		}
+		done = true
+		skipAt, appendAt, parseAt := -1, -1, -1
+		for i, st := range fr.Body.List {
+			if ifs, ok := st.(*ast.IfStmt); ok && skipAt < 0 && p.Src(ifs.Cond) == `keyObj.PodName == ""` && len(ifs.Body.List) == 1 && ifs.Else == nil {
+				if br, ok := ifs.Body.List[0].(*ast.BranchStmt); ok && br.Tok.String() == "continue" {
+					skipAt = i
+				}
+			}
+			if parseAt < 0 && strings.Contains(p.Src(st), "keyObj := util.ParseKey(fip.Key)") {
+				parseAt = i
+			}
+			if appendAt < 0 && strings.Contains(p.Src(st), "meta.allocatedIPs = append(") {
+				appendAt = i
+			}
+		}
+		res = parseAt >= 0 && skipAt > parseAt && appendAt > skipAt
+		return false
+	})
+	return res
+}
+
 func before(a, b int) bool { return a >= 0 && (b < 0 || a < b) }
 
 func gen(repo string) (map[string]string, error) {
@@ -433,6 +464,22 @@ func gen(repo string) (map[string]string, error) {
 	fmt.Fprintf(&b, "/-- `defer p.lockPod(..)()` dominates the first IPAM use of each entry point -/\ndef underPodLock : List (String × Bool) := [%s]\ndef allUnderPodLock : Bool := %s\n\n",
 		strings.Join(locks, ", "), fg.LeanBool(all))
 
+	// ---- resync examines pod keys only: fetchChecklist skips a record whose key has no pod name (an administrator's
+	// reservation, a pool-level or deployment-level key) before it appends it to the checklist
+	skipsNonPod := false
+	if fc, err := rs.Fn("FloatingIPPlugin", "fetchChecklist"); err == nil {
+		skipsNonPod = skipsNonPodKeys(rs, fc.Body)
+	}
+	fmt.Fprintf(&b, "/-- fetchChecklist: a record whose key has no pod name never enters the resync checklist -/\ndef resyncSkipsKeysWithoutPodName : Bool := %s\n", fg.LeanBool(skipsNonPod))
+	// ---- Preempt: calls getSubnet, never lockPod
+	preemptUnlocked := false
+	if pf, err := fg.ParseFile(repo, dir+"preempt.go"); err == nil {
+		if pre, err := pf.Fn("FloatingIPPlugin", "Preempt"); err == nil {
+			src := pf.Src(pre.Body)
+			preemptUnlocked = strings.Contains(src, "p.getSubnet(args.Pod)") && !strings.Contains(src, "lockPod(")
+		}
+	}
+	fmt.Fprintf(&b, "/-- Preempt calls getSubnet (which may allocate) and does not take the pod lock -/\ndef preemptCallsGetSubnetUnlocked : Bool := %s\n", fg.LeanBool(preemptUnlocked))
 	// ---- Bind takes the pod (and its UID) from the lister
 	bind, err := bd.Fn("FloatingIPPlugin", "Bind")
 	if err != nil {
